@@ -115,3 +115,87 @@ Definition ex_dangling : aprog :=
 Example C04_prog_ok_needed :
   prog_ok ex_dangling = false /\ parse (map mktok (flatten ex_dangling ++ [Eof])) <> Done (expected ex_dangling).
 Proof. split; [reflexivity|]. vm_compute. discriminate. Qed.
+
+(* ------------------------------------------------------------------------------------------ *)
+(* FROM TEXT.  The theorems above take the token kinds as given; with C06 conformance (Props/C06.v) the
+   lexer is discharged too.  Proofs/RenderProofs.v: `spell k` is the canonical spelling of a token kind
+   (symbols and keywords from the tables, `Ident s` = s, decimal digits, `0x` + upper-case hex digits, 'c' or
+   '\n', `//` + comment text + line feed); `render_kinds ks gaps` weaves the spellings of ks with the
+   whitespace gaps (gap, token, gap, ..., token, gap); `gaps_ok ks gaps`: one more gap than tokens, whitespace
+   only, and a gap BETWEEN two tokens is empty only if `needs_sep` of the two kinds is false (their spellings
+   do not merge or re-split: decided from the lexical grammar's `Delimited`).  `aprog_valid p`
+   (Proofs/PipelineText.v): identifiers well-formed and no keywords, literals < 2^32, comment texts without
+   line feed. *)
+From Spl Require Import Model.Lexer Proofs.RenderProofs Proofs.PipelineText.
+
+(* every layout of a valid abstract program lexes and parses to the mandated tree *)
+Theorem C04_text_roundtrip : forall p gaps t,
+  prog_ok p = true -> aprog_valid p = true -> gaps_ok (flatten p) gaps -> render_kinds (flatten p) gaps = Some t ->
+  exists toks, lex t = Some toks /\ parse toks = Done (expected p).
+Proof. exact text_roundtrip. Qed.
+Print Assumptions C04_text_roundtrip.
+
+(* layout independence at text level *)
+Theorem C04_text_layout_independent : forall p gaps1 gaps2 t1 t2,
+  prog_ok p = true -> aprog_valid p = true ->
+  gaps_ok (flatten p) gaps1 -> render_kinds (flatten p) gaps1 = Some t1 ->
+  gaps_ok (flatten p) gaps2 -> render_kinds (flatten p) gaps2 = Some t2 ->
+  exists toks1 toks2, lex t1 = Some toks1 /\ lex t2 = Some toks2 /\ parse toks1 = parse toks2.
+Proof. exact text_layout_independent. Qed.
+Print Assumptions C04_text_layout_independent.
+
+(* layouts exist: rendering succeeds for every gap list of the right length; non-empty whitespace behind
+   every token is always a layout, and so is the densest one (a blank exactly where needs_sep holds) *)
+Theorem C04_text_layouts_exist : forall p,
+  aprog_valid p = true ->
+  (forall gaps, length gaps = S (length (flatten p)) -> exists t, render_kinds (flatten p) gaps = Some t) /\
+  (forall gaps, gaps_simple (flatten p) gaps -> gaps_ok (flatten p) gaps) /\
+  gaps_ok (flatten p) (min_gaps None (flatten p)).
+Proof.
+  exact (fun p Hv => conj (fun gaps => text_render_total p gaps Hv)
+                    (conj (gaps_simple_ok (flatten p)) (min_gaps_ok (flatten p) None))).
+Qed.
+Print Assumptions C04_text_layouts_exist.
+
+(* non-vacuity: a tiny program with comments, in its densest layout and in an odd one (tabs, CR LF, blanks) *)
+(* // note
+   proc m()//
+   //// x
+   {x:=1// note
+   -0xFF<='\n'/ifx;}// note        (ifx is an identifier) *)
+Definition ex_small : aprog :=
+  {| a_decls := [DProc c1 c0 [109] c0 None c0 c2 []
+       (SCons (SAsg (AName c0 [120]) c0
+                 (CBin (ABin (AMul (MFac (lit 1))) c1 AMinus (MFac (FLit c0 (LHex 255)))) c0 CLe
+                       (AMul (MBin (MFac (FLit c0 (LChr 10))) c0 MDivide (FVar (AName c0 [105; 102; 120]))))) c0) SNil) c0];
+     a_ceof := c1 |}.
+Definition dense_text : text :=
+  [47; 47; 32; 110; 111; 116; 101; 10;                                   (* // note *)
+   112; 114; 111; 99; 32; 109; 40; 41; 47; 47; 10;                       (* proc m()// *)
+   47; 47; 47; 47; 32; 120; 10;                                          (* //// x *)
+   123; 120; 58; 61; 49; 47; 47; 32; 110; 111; 116; 101; 10;             (* {x:=1// note *)
+   45; 48; 120; 70; 70; 60; 61; 39; 92; 110; 39; 47; 105; 102; 120; 59; 125;    (* -0xFF<='\n'/ifx;} *)
+   47; 47; 32; 110; 111; 116; 101; 10].                                  (* // note *)
+Definition odd_gaps : list text :=
+  map (fun i => nth (Nat.modulo i 3) [[9]; [13; 10; 32]; [32; 32]] []) (seq 0 (S (length (flatten ex_small)))).
+Definition text_pipeline (o : option text) :=
+  match o with Some t => match lex t with Some toks => Some (parse toks) | None => None end | None => None end.
+Example C04_ex_text_hyps :
+  prog_ok ex_small = true /\ aprog_valid ex_small = true /\
+  gaps_ok (flatten ex_small) (min_gaps None (flatten ex_small)) /\ gaps_ok (flatten ex_small) odd_gaps /\
+  render_kinds (flatten ex_small) (min_gaps None (flatten ex_small)) = Some dense_text.
+Proof. vm_compute. repeat split; reflexivity. Qed.
+Example C04_ex_text_parse :
+  text_pipeline (Some dense_text) = Some (Done (expected ex_small)) /\
+  text_pipeline (render_kinds (flatten ex_small) odd_gaps) = Some (Done (expected ex_small)).
+Proof. vm_compute. split; reflexivity. Qed.
+Example C04_ex_text_instance : exists toks, lex dense_text = Some toks /\ parse toks = Done (expected ex_small).
+Proof.
+  apply (C04_text_roundtrip ex_small (min_gaps None (flatten ex_small))); vm_compute; reflexivity.
+Qed.
+(* gaps_ok is needed: without the blank, `proc m` is one identifier and the tree is a different one *)
+Example C04_ex_text_gap_needed :
+  gaps_okb (flatten ex_small) (map (fun _ => []) (seq 0 (S (length (flatten ex_small))))) = false /\
+  text_pipeline (render_kinds (flatten ex_small) (map (fun _ => []) (seq 0 (S (length (flatten ex_small))))))
+  <> Some (Done (expected ex_small)).
+Proof. split; [vm_compute; reflexivity|]. vm_compute. discriminate. Qed.
